@@ -181,3 +181,78 @@ def walk(expr):
         except Exception:
             deps = []
         stack.extend(deps)
+
+
+def rewrite_targets(tier, rng):
+    """compositions chosen to make the optimiser's rewrite rules fire (slice / rechunk / shuffle pushdowns,
+    nested-op fusion, sliding-window substitution, chunk unification, rechunk-into-IO): (name, build)"""
+    import numpy as np
+    import dask_array as da
+    out = []
+    d1 = np.arange(12.0)
+    d2 = np.arange(30.0).reshape(5, 6)
+    lay1 = [(4, 4, 4), (5, 7), (1, 2, 9), (3, 3, 3, 3), (12,)]
+    lay2 = [((2, 3), (3, 3)), ((5,), (2, 2, 2)), ((1, 4), (6,)), ((2, 2, 1), (1, 5))]
+    if tier == "quick":
+        lay1, lay2 = lay1[:3], lay2[:2]
+
+    def srcs1(c):
+        yield "np", lambda: da.from_array(d1, chunks=(c,))
+        yield "rec", lambda: da.from_array(RecordingSource(d1, chunks=(3,)), chunks=(c,))
+
+    def srcs2(c):
+        yield "np", lambda: da.from_array(d2, chunks=c)
+        yield "rec", lambda: da.from_array(RecordingSource(d2, chunks=(2, 3)), chunks=c)
+
+    ops1 = {
+        "(x+1)[2:9]": (lambda x: (x + 1)[2:9], lambda a: (a + 1)[2:9]),
+        "x[2:9][1:4]": (lambda x: x[2:9][1:4], lambda a: a[2:9][1:4]),
+        "x[::2][1:]": (lambda x: x[::2][1:], lambda a: a[::2][1:]),
+        "x[::-1][2:5]": (lambda x: x[::-1][2:5], lambda a: a[::-1][2:5]),
+        "x[3]": (lambda x: x[3], lambda a: a[3]),
+        "x[1:11].rechunk(5)": (lambda x: x[1:11].rechunk(5), lambda a: a[1:11]),
+        "x.rechunk(5)[1:11]": (lambda x: x.rechunk(5)[1:11], lambda a: a[1:11]),
+        "x.rechunk(2).rechunk(6)": (lambda x: x.rechunk(2).rechunk(6), lambda a: a),
+        "concat(x,x*2).rechunk(5)": (lambda x: da.concatenate([x, x * 2]).rechunk(5), lambda a: np.concatenate([a, a * 2])),
+        "concat(x,x*2)[3:20]": (lambda x: da.concatenate([x, x * 2])[3:20], lambda a: np.concatenate([a, a * 2])[3:20]),
+        "x[None,:].rechunk((1,5))": (lambda x: x[None, :].rechunk((1, 5)), lambda a: a[None, :]),
+        "swv(x,3).sum(-1)": (lambda x: da.sliding_window_view(x, 3).sum(-1), lambda a: np.lib.stride_tricks.sliding_window_view(a, 3).sum(-1)),
+        "swv(x,5).mean(-1)[1:]": (lambda x: da.sliding_window_view(x, 5).mean(-1)[1:], lambda a: np.lib.stride_tricks.sliding_window_view(a, 5).mean(-1)[1:]),
+        "(x+x.rechunk(5))": (lambda x: x + x.rechunk(5), lambda a: a + a),
+        "(x*2+1).sum()": (lambda x: (x * 2 + 1).sum(), lambda a: (a * 2 + 1).sum()),
+        "x.cumsum(0)[2:]": (lambda x: x.cumsum(axis=0)[2:], lambda a: a.cumsum()[2:]),
+        "x[[5,1,7]]": (lambda x: x[[5, 1, 7]], lambda a: a[[5, 1, 7]]),
+        "x[[5,1,7]].rechunk(1)": (lambda x: x[[5, 1, 7]].rechunk(1), lambda a: a[[5, 1, 7]]),
+        "roll(x,3)[2:7]": (lambda x: da.roll(x, 3)[2:7], lambda a: np.roll(a, 3)[2:7]),
+        "map_overlap(x)": (lambda x: x.map_overlap(lambda b: b * 2, depth=1, boundary="reflect"), lambda a: a * 2),
+        "diff(x)[1:5]": (lambda x: da.diff(x)[1:5], lambda a: np.diff(a)[1:5]),
+    }
+    ops2 = {
+        "(x+1)[1:4, ::2]": (lambda x: (x + 1)[1:4, ::2], lambda a: (a + 1)[1:4, ::2]),
+        "x.T[1:5]": (lambda x: x.T[1:5], lambda a: a.T[1:5]),
+        "x.T.rechunk((3,5))": (lambda x: x.T.rechunk((3, 5)), lambda a: a.T),
+        "x.sum(0)[1:4]": (lambda x: x.sum(axis=0)[1:4], lambda a: a.sum(axis=0)[1:4]),
+        "x.mean(1, keepdims=True)[2:]": (lambda x: x.mean(axis=1, keepdims=True)[2:], lambda a: a.mean(axis=1, keepdims=True)[2:]),
+        "x[:, 2]": (lambda x: x[:, 2], lambda a: a[:, 2]),
+        "x[1][::2]": (lambda x: x[1][::2], lambda a: a[1][::2]),
+        "(x + x[0])[2:, 1:]": (lambda x: (x + x[0])[2:, 1:], lambda a: (a + a[0])[2:, 1:]),
+        "broadcast_to(x[0],(3,6))[1:]": (lambda x: da.broadcast_to(x[0], (3, 6))[1:], lambda a: np.broadcast_to(a[0], (3, 6))[1:]),
+        "x.rechunk((1,6)).reshape(30)[3:20]": (lambda x: x.rechunk((1, 6)).reshape(30)[3:20], lambda a: a.reshape(30)[3:20]),
+        "x.rechunk((5,1))[1:, 2:4]": (lambda x: x.rechunk((5, 1))[1:, 2:4], lambda a: a[1:, 2:4]),
+        "concat([x,x],1).rechunk((2,4))": (lambda x: da.concatenate([x, x], axis=1).rechunk((2, 4)), lambda a: np.concatenate([a, a], axis=1)),
+        "stack([x,x])[1, 2:]": (lambda x: da.stack([x, x])[1, 2:], lambda a: np.stack([a, a])[1, 2:]),
+        "(x>3).any(1)": (lambda x: (x > 3).any(axis=1), lambda a: (a > 3).any(axis=1)),
+        "x.max(1)[::-1]": (lambda x: x.max(axis=1)[::-1], lambda a: a.max(axis=1)[::-1]),
+        "expand_dims(x,0).rechunk((1,2,3))": (lambda x: da.expand_dims(x, 0).rechunk((1, 2, 3)), lambda a: np.expand_dims(a, 0)),
+        "x[::-1, ::-1][1:3]": (lambda x: x[::-1, ::-1][1:3], lambda a: a[::-1, ::-1][1:3]),
+        "tensordot(x, x.T)": (lambda x: da.tensordot(x, x.T, axes=1), lambda a: np.tensordot(a, a.T, axes=1)),
+    }
+    for c in lay1:
+        for sname, mk in srcs1(c):
+            for oname, (f, g) in ops1.items():
+                out.append((f"1d/{sname}/{c}/{oname}", (lambda mk=mk, f=f, g=g: (f(mk()), g(d1), {}))))
+    for c in lay2:
+        for sname, mk in srcs2(c):
+            for oname, (f, g) in ops2.items():
+                out.append((f"2d/{sname}/{c}/{oname}", (lambda mk=mk, f=f, g=g: (f(mk()), g(d2), {}))))
+    return out
